@@ -123,6 +123,7 @@ type run struct {
 	inlined  map[string]bool
 	depthCap int
 	sentinels []*ssa.Global
+	usedLemmas []string
 }
 
 type execError struct{ msg string }
@@ -311,6 +312,13 @@ func (r *run) typeFacts(t types.Type, term string) string {
 		return fmt.Sprintf("(and (<= %s %s) (<= %s %s))", lo, term, term, hi)
 	}
 	so := r.eng.Sorts.SortOf(t)
+	if so == "Any" {
+		// a value of a non-empty interface type is nil or of a dynamic type implementing it
+		if it, ok := t.Underlying().(*types.Interface); ok && it.NumMethods() > 0 {
+			return fmt.Sprintf("(or ((_ is nil_any) %s) %s)", term, r.eng.Sorts.Implements(it, shortName(t), term))
+		}
+		return "true"
+	}
 	if strings.HasPrefix(so, "Slice_") {
 		m := strings.TrimPrefix(so, "Slice_")
 		return fmt.Sprintf("(and (<= 0 (len_%s %s)) (<= (len_%s %s) (cap_%s %s)) (<= (cap_%s %s) 9223372036854775807) (=> (not (nn_%s %s)) (= (cap_%s %s) 0)))", m, term, m, term, m, term, m, term, m, term, m, term)
@@ -1188,6 +1196,12 @@ func (r *run) loopHeader(fr *frame, li *loopInfo, st *State, reach string) strin
 		if li.spec.Decreases != nil {
 			li.measure = r.specTerm(env, li.spec.Decreases.Expr).Term
 		}
+		for _, ic := range li.spec.Instantiate {
+			r.lemmaInstance(env, reach, ic)
+		}
+		for _, rc := range li.spec.Reveal {
+			r.reveal(env, reach, rc)
+		}
 	}
 	li.hreach = reach
 	return reach
@@ -1361,4 +1375,60 @@ func (r *run) share(term, sort string) string {
 	c := r.fresh("d", sort)
 	r.emit(fmt.Sprintf("(assert (= %s %s))", c, term))
 	return c
+}
+
+// lemmaInstance assumes one instance of a separately proved lemma: requires ==> ensures with
+// the lemma's binders replaced by the given terms.
+func (r *run) lemmaInstance(env *specEnv, reach string, ic Clause) {
+	if ic.Expr.Op != "call" {
+		r.unsupported("instantiate expects lemma(args): %s", ic.Text)
+	}
+	lem := r.eng.Contracts["lemma:"+ic.Expr.Val]
+	if lem == nil {
+		r.unsupported("unknown lemma %q", ic.Expr.Val)
+	}
+	if len(lem.Binders) != len(ic.Expr.Args) {
+		r.unsupported("lemma %s takes %d arguments", ic.Expr.Val, len(lem.Binders))
+	}
+	lem.Used = true
+	saved := map[string]SVal{}
+	for i, b := range lem.Binders {
+		if old, ok := env.bound[b.Name]; ok {
+			saved[b.Name] = old
+		}
+		v := env.tr(ic.Expr.Args[i])
+		defer func(name string) {
+			delete(env.bound, name)
+			if old, ok := saved[name]; ok {
+				env.bound[name] = old
+			}
+		}(b.Name)
+		env.bound[b.Name] = v
+	}
+	// evaluate the lemma body in an environment where only its binders are visible
+	lenv := r.newEnv(nil, env.st)
+	lenv.pkg = env.pkg
+	for _, b := range lem.Binders {
+		lenv.bound[b.Name] = env.bound[b.Name]
+	}
+	var hyp, concl []string
+	for _, rq := range lem.Requires {
+		hyp = append(hyp, r.specBool(lenv, rq.Expr, rq.Text))
+	}
+	for _, en := range lem.Ensures {
+		concl = append(concl, r.specBool(lenv, en.Expr, en.Text))
+	}
+	r.assume(reach, fmt.Sprintf("(=> %s %s)", and(hyp...), and(concl...)))
+	r.assumed["lemma (proved separately): "+ic.Expr.Val] = true
+	r.usedLemmas = append(r.usedLemmas, ic.Expr.Val)
+}
+
+// reveal unfolds an opaque spec function for the given arguments.
+func (r *run) reveal(env *specEnv, reach string, rc Clause) {
+	if rc.Expr.Op != "call" || !r.eng.Prelude.Opaque[rc.Expr.Val] {
+		r.unsupported("reveal expects an opaque spec function applied to arguments: %s", rc.Text)
+	}
+	v := env.tr(rc.Expr)
+	hidden := strings.Replace(v.Term, "("+rc.Expr.Val+" ", "("+rc.Expr.Val+"!def ", 1)
+	r.assume(reach, fmt.Sprintf("(= %s %s)", v.Term, hidden))
 }
